@@ -309,8 +309,9 @@ func (g *gen) fltE(d int) string {
 		return atom() + " - (" + g.fltE(d-1) + " - 1)"
 	case 5:
 		if g.noRightNest {
+			// a product as operand: x*y*x*y instead of (x*y)*(x*y) differs in the last bits
 			excluded("right_nested_nonassociative_operand")
-			return atom() + " * 0.1"
+			return atom()
 		}
 		return atom() + " * (" + g.fltE(d-1) + " * 0.1)"
 	case 6:
